@@ -83,8 +83,10 @@ def _arr_close(a, b, rt):
     return a.shape == b.shape and all(close(x, y, rt, 1e-300) for x, y in zip(a.ravel(), b.ravel()))
 
 
-def _mk(r, units, ads, T, mp, n=None, two=None, extras=False):
+def _mk(r, units, ads, T, mp, n=None, two=None, extras=False, lscale=1.0):
     spec = gen.point_spec(r, n=n or r.randint(4, 14), units=units, ads=ads, T=T, extras=extras, meta={}, material_props=mp, two_branches=two)
+    if lscale != 1.0:
+        spec["loading"] = [x * lscale for x in spec["loading"]]  # (a record in a large unit: numbers of 1e-6 and below)
     return spec, gen.build_point(spec, "df")
 
 
@@ -214,7 +216,7 @@ def _run_loading_pairs(case, ctx):
     sl, sm = tuple(case["stored_l"]), tuple(case["stored_m"])
     units = dict(gen.DEFAULT_UNITS, loading_basis=sl[0], loading_unit=sl[1], material_basis=sm[0], material_unit=sm[1], temperature_unit="°C" if case["seed"] % 2 else "K")
     mp = gen.material_props(r)
-    spec, iso = _mk(r, units, case["ads"], case["T"], mp, two=True, n=8)
+    spec, iso = _mk(r, units, case["ads"], case["T"], mp, two=True, n=8, lscale=1e-6 if case["seed"] % 3 == 0 else 1.0)
     fl = RU.fluid(gen.backend_of(case["ads"]))
     T_K = RU.temperature(spec["temperature"], units["temperature_unit"], "K")
     na = spec["branch"].count(0)
